@@ -27,9 +27,11 @@ ASSUMPTIONS = [
 def configs(tier):
     out = []
     if tier == "quick":
-        lst = [(1, 1, 2, False), (2, 2, 2, False), (2, 1, 2, False), (1, 2, 3, False), (2, 3, 2, True), (3, 2, 2, True), (1, 1, 1, False), (2, 2, 1, True), (3, 3, 2, False), (1, 3, 2, True), (3, 1, 3, False), (2, 2, 3, True)]
+        lst = [(1, 1, 2, False), (2, 2, 2, False), (2, 1, 2, False), (1, 2, 3, False), (2, 3, 2, True), (3, 2, 2, True), (1, 1, 1, False), (2, 2, 1, True), (3, 3, 2, False), (1, 3, 2, True), (3, 1, 3, False), (2, 2, 3, True),
+               # strongly asymmetric widths: the column index is much wider than the narrow side's count
+               (1, 4, 2, False), (4, 1, 2, False), (5, 2, 2, True), (2, 7, 2, False)]
     else:
-        lst = [(rw, ww, rows, mc) for rw in (1, 2, 3) for ww in (1, 2, 3) for rows in (1, 2, 3) for mc in (False, True)] + [(4, 4, 2, False), (4, 2, 2, True), (2, 4, 2, False)]
+        lst = [(rw, ww, rows, mc) for rw in (1, 2, 3) for ww in (1, 2, 3) for rows in (1, 2, 3) for mc in (False, True)] + [(4, 4, 2, False), (4, 2, 2, True), (2, 4, 2, False), (1, 4, 2, False), (4, 1, 2, False), (5, 2, 2, True), (2, 7, 2, False), (1, 8, 2, False), (7, 2, 1, True), (1, 5, 3, False)]
     for rw, ww, rows, mc in lst:
         out.append({"read_width": rw, "write_width": ww, "rows": rows, "max_count": mc})
     return out
